@@ -60,7 +60,8 @@ class Lazy(Machine):
                        "fancy_with_duplicates", "empty_list_op", "landmark_attached_lazily",
                        "per_element_map", "negative_index", "index_out_of_range", "numpy_index",
                        "depth_ge_4", "interleaved_videos", "truncated_read_raises", "mixed_video_instrumented",
-                       "read_folder_backed", "caller_list_mutated_after_use", "fancy_one_shot_iterable", "partial_iteration")
+                       "read_folder_backed", "caller_list_mutated_after_use", "fancy_one_shot_iterable", "partial_iteration",
+                       "video_with_large_frames")
 
     @classmethod
     def swarm(cls, rng, tier):
@@ -604,7 +605,12 @@ class Lazy(Machine):
             idx = list(arg)
         if len(set(idx)) < len(idx):
             self.ctx.probe("fancy_with_duplicates")
+        snap = arg.copy() if isinstance(arg, np.ndarray) else (list(arg) if isinstance(arg, list) else None)
         new = self._nonreading("fancy", lambda: ll[arg])
+        if snap is not None:
+            same = np.array_equal(arg, snap) if isinstance(arg, np.ndarray) else list(arg) == snap
+            self.ctx.require(same, "faithful", "index_argument_modified",
+                             lambda: "indexing rewrote the index %s it was given: %r -> %r" % (type(arg).__name__, list(snap), list(arg)))
         if new is not None:
             self._put(new, [model[i] for i in idx], op["dst"], "fancy(%s)" % self._prov[:40])
 
@@ -777,7 +783,10 @@ class Lazy(Machine):
         if self.cfg["kind"] == "video_faulty" and n >= 2 and op["trunc"] % 4 == 0:
             trunc = 1 + (op["trunc"] // 4) % (n - 1)
             ctx.fault("truncated_video")
-        spec = VideoSpec(vid, path, n, 2, 3, num, den, truncated_at=trunc)
+        big = op["lm"] % 8 == 0     # one in eight videos has frames larger than any pipe / chunk buffer (66 kB each)
+        if big:
+            ctx.probe("video_with_large_frames")
+        spec = VideoSpec(vid, path, n, 110 if big else 2, 200 if big else 3, num, den, truncated_at=trunc)
         spec.lm_frames = {k for k in range(n) if (op["lm"] >> k) & 1}
         spec.lm_points = {}
         with self.fs._orig_open(path, "wb") as f:
